@@ -14,7 +14,7 @@ from vfw.props import common
 PROPERTY = "C06"
 LEVEL = "exploration"
 RULE = (
-    "case = (text, dialect) from dialect fixtures <= 3 kB, 2 seeded mutants each, hostile strings, lintable Jinja templates and minified single-line statements of 6-10 k characters; the same text is parsed by the real parser (a) normally, "
+    "case = (text, dialect) from every 2nd dialect fixture <= 3 kB, a seeded mutant of every 3rd, hostile strings, lintable Jinja templates and minified single-line statements of 6-10 k characters; the same text is parsed by the real parser (a) normally, "
     "(b) with the parse cache disabled (ParseContext.check_parse_cache -> None), (c) with first-token pruning disabled (prune_options -> all options), (d) both, (e) again with a new Linter "
     "after the worker process has parsed a history of other files/dialects/templaters, and for 'fresh' cases (f) in a brand-new interpreter; oracle: identical tree "
     "(to_tuple with raws and metas) and identical PRS list in all runs; distinct = content hash; non-trivial = tree has >= 5 leaves and the cache was hit / options were pruned in run (a)"
@@ -61,7 +61,7 @@ def install():
 
 
 def universe():
-    u = common.fx_cases(3000) + common.mx_cases(2, 3000, start=40) + common.hs_cases(every=7) + common.jj_cases(300, "lintable", FOUR)
+    u = common.fx_cases(3000)[::2] + common.mx_cases(1, 3000, start=40)[::3] + common.hs_cases(every=11) + common.jj_cases(200, "lintable", FOUR)
     # minified / generated SQL: very long single lines with the same token recurring at regular columns
     for d in ("ansi", "postgres", "bigquery", "tsql"):
         for item, n in (("ab, ", 1600), ("abcdef, ", 900), ("foo + 1 AS c, ", 700), ("(a), ", 1300), ("'x' AS k, ", 800)):
